@@ -17,7 +17,9 @@ outstanding is rejected rather than displacing the first.
 request whose response is next in the queue gets it — no assumption about the table, the registration is the proved
 invariant `InvR`), `outstanding_iff_registered`, `held_was_sent_by_the_peer` (what a caller holds was sent by the peer in
 this history, field by field), `resp_token_matches` / `no_cross_delivery` / `at_most_one_receiver`,
-`late_copy_goes_to_default`, `duplicate_token_rejected_first_kept`.  They need the premise of the property, "requests
+`late_copy_goes_to_default`, `duplicate_token_rejected_first_kept`, and — for every history, token re-use included —
+`retransmission_reaches_nobody` (a message ID processed once is recognised afterwards: the copy of a separate confirmable
+response cannot reach the request that has taken over its token).  The others need the premise of the property, "requests
 with distinct tokens" (`DistinctRequests`: the request tokens of the history are pairwise distinct and separated by the
 key function); the single-step facts further down hold in every state and are the building blocks.
 
@@ -150,6 +152,34 @@ theorem late_copy_goes_to_default (h : Token → Nat) (cfg : Cfg) (evs : List Ev
   rw [deliver_miss_default_eq h cfg _ m hmiss]
   unfold remember
   split <;> exact ⟨rfl, rfl⟩
+
+/-- **retransmission_reaches_nobody (message-ID layer, trace level).**  Datagram transport, **every** history — in
+    particular histories in which the token of an ended exchange is re-used by a later request, which `DistinctRequests`
+    excludes and the protocol allows: once a confirmable message `m` of the peer has been processed, every later message
+    of the peer with the same message ID (confirmable or not — the retransmission of `m`) is dropped before token
+    matching, whatever happened in between (`evs2`: requests starting with any token, returns, cancellations, other
+    arrivals): processing it changes nothing but the queue — no caller, no table entry, no default-path delivery.  So a
+    retransmitted separate response cannot reach the request that has taken over its token.  (No cache expiry here:
+    a history is shorter than EXCHANGE_LIFETIME; expiry is C05's.) -/
+theorem retransmission_reaches_nobody (h : Token → Nat) (cfg : Cfg) (evs1 evs2 : List Event) (hudp : cfg.udp = true)
+    (m : Msg) (q : List Msg) (hq : (run h cfg evs1).queue = m :: q) (hk : m.kind = .con)
+    (m' : Msg) (q' : List Msg) (hq' : (run h cfg (evs1 ++ .process :: evs2)).queue = m' :: q')
+    (hk' : m'.kind = .con ∨ m'.kind = .non) (hmid : m'.mid = m.mid) :
+    run h cfg (evs1 ++ .process :: evs2 ++ [.process]) = { run h cfg (evs1 ++ .process :: evs2) with queue := q' } := by
+  have e1 : run h cfg (evs1 ++ .process :: evs2) = evs2.foldl (step h cfg) (step h cfg (run h cfg evs1) .process) := by
+    simp [run, List.foldl_append]
+  have hc : m.mid ∈ (run h cfg (evs1 ++ .process :: evs2)).cache := by
+    rw [e1]
+    exact cache_mono_fold h cfg evs2 _ _ (process_con_cached h cfg _ m q hudp hq hk)
+  have e2 : run h cfg (evs1 ++ .process :: evs2 ++ [.process]) = step h cfg (run h cfg (evs1 ++ .process :: evs2)) .process := by
+    simp [run, List.foldl_append]
+  rw [e2, step, hq']
+  dsimp only
+  have hd : dedupHit cfg { run h cfg (evs1 ++ .process :: evs2) with queue := q' } m' = true := by
+    simp only [dedupHit, hudp, Bool.true_and, Bool.and_eq_true, Bool.or_eq_true, decide_eq_true_eq, List.contains_iff_mem, hmid]
+    exact ⟨hk', hc⟩
+  rw [hd]
+  simp
 
 /-! ### Single-step facts (valid in *every* state, hence in every reachable one; the trace-level theorems above and
     the invariants are built from them) -/
@@ -343,6 +373,7 @@ open CoapVerif.Props.C03
 #print axioms outstanding_iff_registered
 #print axioms held_was_sent_by_the_peer
 #print axioms late_copy_goes_to_default
+#print axioms retransmission_reaches_nobody
 #print axioms duplicate_token_rejected_first_kept
 #print axioms deliver_miss_default_eq
 #print axioms second_do_rejected
